@@ -113,6 +113,22 @@ theorem fixed_cols (off : Int) : CivilCols (fixedZone off) := by
     have := localTimeTT_spec (fixedAbbrs off) i64min (fixedTT off)
     exact ⟨this.1, this.2.1⟩
 
+theorem fixed_civilSorted (off : Int) : CivilSorted (fixedZone off) := by
+  intro i j hij hj
+  have cc := fixed_cols off
+  have wf := fixed_wf off
+  have hj' := hj
+  rw [fixed_size] at hj'
+  obtain ⟨vi, si⟩ := cc.civ i (by omega)
+  obtain ⟨vj, sj⟩ := cc.civ j hj
+  have oi : offOf (fixedZone off) i = off := by
+    unfold offOf; rw [fixed_trn off i (by omega)]; rfl
+  have oj : offOf (fixedZone off) j = off := by
+    unfold offOf; rw [fixed_trn off j hj']; rfl
+  have := wf.timeSorted i j hij hj
+  rw [lt_iff_secNum vi vj, si, sj, oi, oj]
+  unfold timeOf; omega
+
 /-- every instant has type 0 -/
 theorem fixed_typeAt (off : Int) (t : Int) : typeAt (fixedZone off) t = 0 := by
   unfold typeAt
